@@ -14,7 +14,10 @@ import time
 
 ROOT = os.path.dirname(os.path.dirname(os.path.abspath(__file__)))
 SPEC = os.path.join(ROOT, "spec")
-BUILD = os.path.join(ROOT, "build")
+# VERIF_OUT relocates everything a run writes (build output, work files, replays, evidence) and VERIF_REPO the tree under
+# test: used only to try seeded changes on scratch worktrees side by side; the registered checks use /verif and /repo.
+OUT = os.environ.get("VERIF_OUT", ROOT)
+BUILD = os.path.join(OUT, "build")
 TARGET = os.path.join(BUILD, "target")
 VH = os.path.join(TARGET, "release", "vh")
 FAKEGEN = os.path.join(TARGET, "release", "fakegen")
@@ -48,7 +51,19 @@ def build():
     os.makedirs(BUILD, exist_ok=True)
     with open(os.path.join(BUILD, ".lock"), "w") as lk:
         fcntl.flock(lk, fcntl.LOCK_EX)
-        _run_build(["cargo", "build", "--release", "--offline", "--quiet"], os.path.join(ROOT, "harness"))
+        hdir = os.path.join(ROOT, "harness")
+        if REPO != "/repo":
+            # a private copy of the harness whose path dependencies point at the tree under test
+            hdir = os.path.join(BUILD, "harness")
+            os.makedirs(os.path.join(hdir, ".cargo"), exist_ok=True)
+            subprocess.run(["rsync", "-a", "--delete", os.path.join(ROOT, "harness", "src"), hdir + "/"], check=True)
+            shutil.copy(os.path.join(ROOT, "harness", "Cargo.lock"), hdir)
+            toml = open(os.path.join(ROOT, "harness", "Cargo.toml")).read().replace('"/repo/', '"%s/' % REPO)
+            with open(os.path.join(hdir, "Cargo.toml"), "w") as f:
+                f.write(toml)
+            with open(os.path.join(hdir, ".cargo", "config.toml"), "w") as f:
+                f.write('[net]\noffline = true\n\n[build]\ntarget-dir = "%s"\n' % TARGET)
+        _run_build(["cargo", "build", "--release", "--offline", "--quiet"], hdir)
         _run_build(["cargo", "build", "--release", "--offline", "--quiet", "--manifest-path", os.path.join(REPO, "Cargo.toml"),
                     "-p", "slicec", "--bin", "slicec", "--target-dir", TARGET], ROOT)
     for b in (VH, FAKEGEN, SLICEC):
@@ -139,7 +154,7 @@ class Ctx:
         self.mod = mod
         self.seed = int(os.environ.get("VERIF_SEED", "1"))
         self.t0 = time.time()
-        self.work = os.path.join(ROOT, "work", "%s-%s" % (pid, tier))
+        self.work = os.path.join(OUT, "work", "%s-%s" % (pid, tier))
         shutil.rmtree(self.work, ignore_errors=True)
         os.makedirs(self.work, exist_ok=True)
         self.states = 0
@@ -496,7 +511,7 @@ class Ctx:
 
     # ------------------------------------------------------------------ results
     def replay_path(self, f, n):
-        d = os.path.join(ROOT, "replays", self.pid)
+        d = os.path.join(OUT, "replays", self.pid)
         os.makedirs(d, exist_ok=True)
         blob = json.dumps(f, sort_keys=True)
         h = hashlib.sha1(blob.encode()).hexdigest()[:10]
@@ -550,7 +565,7 @@ class Ctx:
         return n + self.distinct_nt_extra
 
     def write_evidence(self, nviol, hit):
-        os.makedirs(os.path.join(ROOT, "evidence"), exist_ok=True)
+        os.makedirs(os.path.join(OUT, "evidence"), exist_ok=True)
         level = getattr(self.mod, "LEVEL", "model_checking")
         cov = {
             "states": self.states,
@@ -575,7 +590,7 @@ class Ctx:
             "wall_s": round(time.time() - self.t0, 2),
             "violations": nviol,
         }
-        with open(os.path.join(ROOT, "evidence", self.pid + ".json"), "w") as out:
+        with open(os.path.join(OUT, "evidence", self.pid + ".json"), "w") as out:
             json.dump(ev, out, indent=1)
 
     def replay_file(self, path):
